@@ -349,6 +349,9 @@ class Check:
             what = "; ".join(b["what"] for b in self.cov["broken"])[:1500]
             real.append({"what": "no longer shown to hold: " + what, "found_input": False, "key": "broken:" + what[:200],
                          "replay": {"kind": "broken-obligation", "broken": self.cov["broken"]}})
+        # once a concrete failing input is in hand it is the replay; the "no longer shown to hold" report is redundant
+        if any(v["found_input"] for v in real):
+            real = [v for v in real if v["found_input"]]
         wall = time.time() - self.t0
         ev = {"property_id": self.pid, "tier": self.tier, "seed": self.seed, "level": self.level,
               "coverage": self.cov, "assumptions": self.assumptions, "wall_s": round(wall, 2),
